@@ -7,6 +7,8 @@ import (
 	"io"
 	"net/http"
 	"net/http/httptest"
+	"net/http/httptrace"
+	"net/textproto"
 	"sort"
 	"strings"
 	"sync"
@@ -65,10 +67,12 @@ const (
 	Park                         // block until Release; then 200
 	Status4xx                    // 404
 	AbortBody                    // 200 headers, then the body read fails (backend reset mid-body)
+	Interim5xx                   // "103 Early Hints" interim response, then 500
+	InterimGood                  // "103 Early Hints" interim response, then 200
 )
 
 func (b Behaviour) String() string {
-	return [...]string{"good", "5xx", "unreachable", "park", "4xx", "abort-body"}[b]
+	return [...]string{"good", "5xx", "unreachable", "park", "4xx", "abort-body", "103+5xx", "103+200"}[b]
 }
 
 // FakeNet is the scripted http.RoundTripper standing in for http.Transport in L1.
@@ -297,8 +301,19 @@ func (f *FakeNet) roundTrip(req *http.Request, isProbe bool) (*http.Response, er
 	}
 	if isProbe {
 		f.mu.Lock()
-		f.probeLog = append(f.probeLog, ProbeRec{Host: host, Start: start, End: time.Now(), OK: b == Good || b == Park})
+		f.probeLog = append(f.probeLog, ProbeRec{Host: host, Start: start, End: time.Now(), OK: b == Good || b == Park || b == InterimGood})
 		f.mu.Unlock()
+	}
+	if b == Interim5xx || b == InterimGood {
+		// what http.Transport does when the backend sends an interim response: the reverse proxy
+		// listens through httptrace and forwards it to the client before the final response
+		if tr := httptrace.ContextClientTrace(req.Context()); tr != nil && tr.Got1xxResponse != nil {
+			_ = tr.Got1xxResponse(103, textproto.MIMEHeader{"Link": {"</s.css>; rel=preload"}})
+		}
+		if b == Interim5xx {
+			return mk(500, "err:"+host), nil
+		}
+		return mk(200, "ok:"+host), nil
 	}
 	switch b {
 	case Good, Park:
@@ -345,11 +360,27 @@ func Request(method, path, remote string, hdr map[string]string) *http.Request {
 	return req
 }
 
+// finalRecorder is an httptest.ResponseRecorder that treats 1xx responses as what they are on the
+// wire - interim responses before the final one - instead of recording the first of them as the
+// status of the exchange.
+type finalRecorder struct {
+	*httptest.ResponseRecorder
+	Interim []int
+}
+
+func (r *finalRecorder) WriteHeader(code int) {
+	if code >= 100 && code < 200 && code != http.StatusSwitchingProtocols {
+		r.Interim = append(r.Interim, code)
+		return
+	}
+	r.ResponseRecorder.WriteHeader(code)
+}
+
 // Serve runs one request through h and returns status, body and response headers.
 // A panic with http.ErrAbortHandler (what httputil raises for an aborted response under a real
 // server) is reported as aborted=true; any other panic propagates.
 func Serve(h http.Handler, req *http.Request) (status int, body string, hdr http.Header, aborted bool) {
-	rec := httptest.NewRecorder()
+	rec := &finalRecorder{ResponseRecorder: httptest.NewRecorder()}
 	func() {
 		defer func() {
 			if r := recover(); r != nil {
